@@ -32,7 +32,7 @@ TUS = [
     ("asmjit/core/assembler.cpp", ["BaseAssembler"]),
     ("asmjit/core/builder.cpp", ["BaseBuilder", "NodeList", "Node"]),
     ("asmjit/core/compiler.cpp", ["BaseCompiler", "Node", "VirtReg", "JumpAnnotation", "FuncPass"]),
-    ("asmjit/core/rapass.cpp", ["RAPass", "RAWorkReg", "RABlock", "RAInst", "RAStackSlot"]),
+    ("asmjit/core/rapass.cpp", ["RAPass", "RAWorkReg", "RABlock", "RAInst", "RAStackSlot", "RATiedReg", "RAAssignment", "RALiveSpans"]),
     ("asmjit/core/builder.cpp", ["Pass"]),
     ("asmjit/core/rastack.cpp", ["RAStack"]),
     ("asmjit/x86/x86rapass.cpp", ["RAPass"]),
@@ -53,7 +53,7 @@ CLASSES = ["CodeHolder", "BaseEmitter", "BaseAssembler", "BaseBuilder", "BaseCom
            "LabelEntry", "LabelEntry::ExtraData", "CodeHolder::NamedLabelExtraData",
            "BaseNode", "InstNode", "SectionNode", "LabelNode", "AlignNode", "EmbedDataNode", "EmbedLabelNode", "EmbedLabelDeltaNode",
            "ConstPoolNode", "CommentNode", "SentinelNode", "JumpNode", "FuncNode", "FuncRetNode", "InvokeNode",
-           "VirtReg", "JumpAnnotation", "RAWorkReg", "RABlock", "RAInst", "RAStackSlot", "Pass", "FuncPass", "Arena::ManagedBlock"]
+           "VirtReg", "JumpAnnotation", "RAWorkReg", "RABlock", "RAInst", "RAStackSlot", "Pass", "FuncPass", "Arena::ManagedBlock", "RATiedReg", "RAAssignment", "RALiveSpans"]
 FUNC_KINDS = ("FunctionDecl", "CXXMethodDecl", "CXXConstructorDecl", "CXXDestructorDecl")
 
 
@@ -297,6 +297,13 @@ def exits_of(st):
         for c in inner:
             out += exits_of(c)
         return out
+    if k in ("WhileStmt", "ForStmt", "DoStmt", "CXXForRangeStmt") and inner:
+        # a return inside a loop body: what follows the loop is only reached when no iteration took that exit
+        body = inner[-1] if k != "DoStmt" else inner[0]
+        out = ()
+        for x in exits_of(body):
+            out += ("GErrExit",) if x == "GErrExit" else ('GOther "loop-exit"',)
+        return tuple(dict.fromkeys(out))
     return ()
 
 
